@@ -548,7 +548,7 @@ func init() {
 						continue
 					}
 					r.Site(cs.Call.Pos(), "KeyGroupFromBytes argument in "+where)
-					b := sliceBounds(cs.Use.Pkg.TypesInfo, cs.Call.Args[0])
+					b := sliceBounds(cs.Use.Pkg.TypesInfo, deref(cs.Use.Pkg.TypesInfo, cs.Call.Args[0]))
 					if prog.RelPkg(cs.Use.Pkg.PkgPath) == "partitioning" {
 						continue
 					}
@@ -681,7 +681,7 @@ func init() {
 					if sel, isS := ast.Unparen(call.Fun).(*ast.SelectorExpr); isS && prog.SelField(oi, sel.X) == kgr && len(call.Args) == 1 {
 						def := resolveLocal(oi, ok.Decl.Body, call.Args[0])
 						if c2, isC2 := ast.Unparen(def).(*ast.CallExpr); isC2 && len(c2.Args) == 1 {
-							if sl, isSl := ast.Unparen(c2.Args[0]).(*ast.SliceExpr); isSl && r.isParam(ok, sl.X, 0) {
+							if sl, isSl := deref(oi, c2.Args[0]).(*ast.SliceExpr); isSl && r.isParam(ok, sl.X, 0) {
 								good = true
 							}
 						}
